@@ -830,7 +830,15 @@ impl PGen {
                 let (l1, l2, l3) = (1 + r.below(3), 1 + r.below(3), 1 + r.below(3));
                 let e2 = if r.chance(1, 2) { "◌ " } else { "" };
                 let e3 = if r.chance(1, 2) { "◌ " } else { "" };
-                let fail2 = if r.chance(1, 2) { "⍤\"mid\"0 " } else { "" };
+                // the middle handler may fail: with a constant assertion (the compiler then knows it never
+                // returns and widens its signature to the try's: compile/mod.rs try_, is_noreturn) or with an
+                // assertion on a run-time value (it keeps its own signature, so it can be GIVEN the error
+                // value beneath the arguments when it has fewer outputs than the try)
+                let fail2 = match r.below(4) {
+                    0 => "⍤\"mid\"0 ",
+                    1 | 2 => "⍤\"mid\" <0 ⌵ . ",
+                    _ => "",
+                };
                 format!(
                     "⍣({}|{fail2}{e2}{}|{e3}{})",
                     self.body(r, depth - 1, l1),
